@@ -779,3 +779,28 @@ Proof.
   unfold response_of_page; cbn [rs_info]. induction (pg_objs p) as [|[k v] l IHl]; [reflexivity|].
   cbn [map info_objects flat_map fst snd app]. f_equal. exact IHl.
 Qed.
+
+(* ================================================================== configuration histories *)
+
+Lemma init_accepts_eq k :
+  beval (env_of [("key", k)]) (c_init_accepts code) = ((0 <=? k) && (k <=? 6)) || ((128 <=? k) && (k <=? 255)).
+Proof. unfold beval. cbn. rewrite !z2b_b2z. destruct (z2b_b2z true). lia. Qed.
+
+Lemma cfg_apply_spec m o : cfg_apply code m o = spec_apply m o.
+Proof.
+  destruct o as [l|l|k v|n v]; cbn [cfg_apply spec_apply].
+  - revert m. induction l as [|[k v] t IH]; intros m; [reflexivity|]. cbn [fold_left fst snd].
+    rewrite init_accepts_eq. apply IH.
+  - reflexivity.
+  - cbn [c_setitem_excluded code existsb]. rewrite orb_false_r. reflexivity.
+  - reflexivity.
+Qed.
+
+(* what the code's configuration API leaves in the identity after ANY history of constructor
+   calls, update(), item assignments and named-property assignments is the spec's final map:
+   last write per object id wins, a blank value withdraws the object *)
+Lemma configured_spec h : configured code h = spec_configured h.
+Proof.
+  unfold configured, spec_configured. generalize (@nil object).
+  induction h as [|o t IH]; intros m; [reflexivity|]. cbn [fold_left]. rewrite cfg_apply_spec. apply IH.
+Qed.
